@@ -353,5 +353,98 @@ pub broadcast group group_seq_facts {
         broadcast use group_seq_facts;
 //@ end
 
+
+// ---------------------------------------------------------------- the dispatcher (crates/storage/src/tiny_lfu.rs):
+// every buffered message reaches the policy handler that belongs to it, with the message's own key, unconditionally.
+// (The policy's guarantees above are per handler call; a dropped or misrouted message -- e.g. a `Removed` that never
+// reaches `on_removed` -- leaves the policy tracking an entry the store no longer has, or a parked key that is never
+// released: the bound and "never evicts pinned" then fail at the cache level although every handler is correct.)
+//@ enum crates/storage/src/tiny_lfu/policy.rs :: WriteMessage
+//@ enum crates/storage/src/tiny_lfu/policy.rs :: PolicyMessage
+//@ enum crates/storage/src/tiny_lfu.rs :: UnpinStrategy
+#[derive(Clone, Copy, PartialEq, Eq, Structural)]
+//@ end
+
+pub trait LifecycleListener<K, V> {}
+
+/// struct stand-in (field subset): the dispatcher reads `unpin_strategy` and `build_hasher`; `storage` is an opaque stand-in whose
+/// queries answer arbitrarily; the real struct also holds the read/write buffers, the policy mutex and the maintenance flag
+#[verifier::reject_recursive_types(K)]
+#[verifier::reject_recursive_types(V)]
+pub struct TinyLFUInner<K, V, L> {
+    pub storage: StorageMap<K, V>,
+    pub unpin_strategy: UnpinStrategy,
+    pub lifecycle_listener: L,
+    pub build_hasher: FxBuildHasher,
+}
+/// the concurrent storage map (scc::HashMap behind CachePadded): opaque; a query may answer anything, because other
+/// threads insert and remove entries while maintenance runs
+#[verifier::external_body]
+#[verifier::reject_recursive_types(K)]
+#[verifier::reject_recursive_types(V)]
+pub struct StorageMap<K, V> { _p: core::marker::PhantomData<(K, V)> }
+impl<K, V> StorageMap<K, V> {
+    #[verifier::external_body]
+    pub fn contains_sync(&self, key: &K) -> bool { unimplemented!() }
+    #[verifier::external_body]
+    pub fn len(&self) -> usize { unimplemented!() }
+}
+
+impl<K, V, L> TinyLFUInner<K, V, L> {
+    /// what the owner answers when asked to give up key k (true: removed / absent, false: pinned) -- the relation the
+    /// real `remove_closure` implements over the storage map and the lifecycle listener under the entry lock
+    pub uninterp spec fn owner_answers(&self, k: K, b: bool) -> bool;
+
+    /// TinyLFUInner::hash
+    #[verifier::external_body]
+    pub fn hash<T>(&self, t: &T) -> u64 { unimplemented!() }
+
+    /// TinyLFUInner::remove_closure (scc entry API + listener: not under contract)
+    #[verifier::external_body]
+    pub fn remove_closure(&self) -> (r: impl Fn(&K) -> bool)
+        ensures
+            forall|k: &K| #[trigger] r.requires((k,)),
+            forall|k: &K, b: bool| #[trigger] r.ensures((k,), b) ==> self.owner_answers(*k, b),
+    { |k: &K| -> bool { true } }
+
+    pub open spec fn forgets_only_released(&self, old_p: &Policy<K>, new_p: &Policy<K>) -> bool {
+        forall|k: K| #![trigger new_p.lru.tracks(k)] old_p.lru.tracks(k) && !new_p.lru.tracks(k) ==> self.owner_answers(k, true)
+    }
+    pub open spec fn parks_only_pinned(&self, old_p: &Policy<K>, new_p: &Policy<K>) -> bool {
+        forall|k: K| #![trigger new_p.lru.seq(Region::Pinned).contains(k)]
+            new_p.lru.seq(Region::Pinned).contains(k) && !old_p.lru.seq(Region::Pinned).contains(k) ==> self.owner_answers(k, false)
+    }
+    /// the effect a write message must have on the policy
+    pub open spec fn delivered(&self, m: WriteMessage<K>, old_p: &Policy<K>, new_p: &Policy<K>) -> bool {
+        match m {
+            WriteMessage::Insert(key) => new_p.bounded() && (new_p.lru.tracks(key) || self.owner_answers(key, true))
+                && self.forgets_only_released(old_p, new_p) && self.parks_only_pinned(old_p, new_p),
+            WriteMessage::Unpinned(key) => new_p.bounded()
+                && self.forgets_only_released(old_p, new_p) && self.parks_only_pinned(old_p, new_p),
+            // the owner removed the entry: the policy must stop tracking that key -- whatever else happened to the key
+            // since -- and must not touch any other key
+            WriteMessage::Removed(key) => !new_p.lru.tracks(key)
+                && (forall|k: K| k != key ==> #[trigger] new_p.lru.tracks(k) == old_p.lru.tracks(k)),
+        }
+    }
+}
+
+//@ impl crates/storage/src/tiny_lfu.rs :: impl< K: std::hash::Hash + Eq + Clone + Send + Sync + 'static, V: Send + Sync + 'static, L: LifecycleListener<K, V> + Send + Sync + 'static, > TinyLFUInner<K, V, L>
+//@ member process_write
+//@ sig
+        requires old(lock).inv()
+        ensures final(lock).inv(), final(lock).caps_same(old(lock)), self.delivered(message, old(lock), final(lock))
+//@ member process_message
+//@ sig
+        requires old(lock).inv()
+        ensures
+            final(lock).inv(), final(lock).caps_same(old(lock)),
+            match message {
+                PolicyMessage::ReadHit(key) => (forall|k: K| #[trigger] final(lock).lru.tracks(k) == old(lock).lru.tracks(k))
+                    && final(lock).lru.seq(Region::Pinned) == old(lock).lru.seq(Region::Pinned),
+                PolicyMessage::Write(m) => self.delivered(m, old(lock), final(lock)),
+            }
+//@ end
+
 } // verus!
 fn main() {}
